@@ -43,6 +43,7 @@ class Buf:
         self.fill = True          # scanner may read for it
         self.user_owned = False
         self.bol_known = True
+        self.pending_src = None   # source named by a top-level `yyin = f` not yet acted upon
 
 
 LEGIT_FATAL_PUSHBACK = 'flex scanner push-back overflow'
@@ -98,6 +99,7 @@ class Model:
         self.lost_prefix_ok = False
         self.top_op = None
         self.after_destroy = False
+        self.lexed_once = False
         self.expect_init = sc.flavor != 'nr'
         self.overread = []        # (ord, extra requests)
         self.reads_window = []    # unread-byte counts seen by each read request since the last token
@@ -209,6 +211,7 @@ class Model:
         self.g_lineno = 1
         self.more_next = False
         self.after_destroy = True
+        self.lexed_once = False
 
     def ev_F(self, ev):
         msg = ev.get('msg', '')
@@ -271,6 +274,14 @@ class Model:
             if ret == 0:
                 self.orphan_eof = True
             return
+        if b.pending_src is not None and ev.get('src', -1) >= 0:
+            if ev['src'] != b.pending_src:
+                self.v('stream', ev, 'yyin was pointed at source %d, the scanner reads source %d' % (b.pending_src, ev['src']))
+            b.src = ev['src']
+            b.pending_src = None
+        if b.kind == 'file' and ev.get('src', -1) >= 0:
+            b.src = ev['src']      # (which stream a buffer reads is taken from the log; only a `yyin = f` directly
+                                   # followed by yylex is checked, above)
         if b.eof:
             if self.sc.flavor == 'cxx' and not self.sc.user_input:
                 # yyFlexLexer::LexerInput on a std::istream: read() has to run into the end of the stream to
@@ -358,7 +369,13 @@ class Model:
     def _save_cur(self):
         pass
 
+    def _drop_pending_src(self):
+        b = self.cur()
+        if b is not None:
+            b.pending_src = None
+
     def _switch(self, h):
+        self._drop_pending_src()
         if self.bstack:
             self.bstack[-1] = h
         else:
@@ -366,6 +383,7 @@ class Model:
         self._entered_buffer()
 
     def _push(self, h):
+        self._drop_pending_src()
         if self.bstack:
             self.bstack.append(h)
         else:
@@ -389,6 +407,14 @@ class Model:
     def ev_P(self, ev):
         self.top_op = ev['op']
         self.in_action = False
+        if ev['op'] not in ('LEX', 'SET_YYIN'):
+            # a `yyin = f` is only followed up when yylex is the next thing called: flushing, switching,
+            # restarting ... reload yyin from the current buffer or replace it (yyrestart(yyin) uses it)
+            b = self.cur()
+            if b is not None and b.pending_src is not None:
+                if ev['op'] == 'RESTART' and ev.get('h', -1) < 0:
+                    b.src = b.pending_src
+                b.pending_src = None
         self.pending_fault = None if self.pending_fault is None else self.pending_fault
         self.apply_op(ev, 'top')
 
@@ -440,11 +466,20 @@ class Model:
             self.pending_init = True
         elif op == 'LEX':
             self.reads_window = []
+            if not self.lexed_once:
+                # the first yylex call of a scanner (re)loads yyin from the current buffer, if the caller
+                # has made one: a `yyin = f` issued after that buffer was made is overridden
+                self.lexed_once = True
+                self._drop_pending_src()
         elif op == 'LESS':
             n = a
-            if n > len(self.yytext) or n < len(self.more_prefix):
+            if n > len(self.yytext) or (n < len(self.more_prefix) and self.sc.array):
                 self.v('harness', ev, 'yyless(%d) outside [%d,%d]' % (n, len(self.more_prefix), len(self.yytext)))
                 return
+            if n < len(self.more_prefix):
+                # %pointer: part of the text kept by yymore() goes back to the input as well
+                self.more_prefix = self.more_prefix[:n]
+                self.stat('less-into-more-prefix')
             back = self.yytext[n:]
             if b is not None:
                 b.held = bytearray(back) + b.held
@@ -556,6 +591,7 @@ class Model:
                 b.eof = False
                 b.kind = 'file'
                 b.fill = True
+                b.pending_src = None
                 if ev.get('h', -1) >= 0:
                     b.src = ev['h']
                 if self.more_next:
@@ -564,6 +600,11 @@ class Model:
                 self.expect_implicit = True
             self.stat('op-' + op.lower())
         elif op == 'SET_YYIN':
+            if ctx == 'top' and b is not None and a != 2 and ev.get('h', -1) >= 0:
+                # "yyin = f" between two yylex calls (before the first one or after the end of input): the
+                # current buffer adopts that stream when the scanner next looks at it; a buffer switch before
+                # that drops the assignment (yyin is reloaded from the buffer that becomes current)
+                b.pending_src = ev['h']
             if ctx == 'wrap':
                 # yywrap returned 0 without switching buffers: the scanner
                 # restarts the current buffer on the new yyin
@@ -572,6 +613,8 @@ class Model:
                     b.bol = True
                     b.eof = False
                     b.src = ev.get('h', -1)
+                    if ev.get('h', -1) >= 0:
+                        b.pending_src = ev['h']      # the very next read has to come from there
                     if b.kind == 'mem':
                         # the scanner now reads the stream into the buffer it
                         # allocated for the yy_scan_bytes/yy_scan_string copy
